@@ -549,6 +549,8 @@ package storage
 
 //@ ghost var storeState int
 //@ ghost var openStores int
+// openDB: the lower-cased name of the database whose store was opened last (a session holds at most one store between statements)
+//@ ghost var openDB string
 
 //@ func newFileStore(path string, autoFlushCache bool) (*fileStore, error)
 //@   props C17
@@ -603,7 +605,10 @@ package storage
 
 //@ func OpenRelation(dbName string, forceWALSync bool) (*RelationService, error)
 //@   props C17
-//@   modifies storeState, openStores, listLen, listAt, listPos, listOf
+//@   requires[single; C17] openStores == 0 || strLower(dbName) != openDB
+//@   modifies storeState, openStores, openDB, listLen, listAt, listPos, listOf
+//@   ensures_assumed[ghost.open] err == nil ==> openDB == strLower(dbName)
+//@   ensures[err.name; C17] err != nil ==> openDB == old(openDB)
 //@   ensures[err; C17] err != nil ==> result0 == nil && openStores == old(openStores)
 //@   ensures[ok; C17] err == nil ==> result0 != nil && fresh(result0) && openStores == old(openStores) + 1 && result0.fs != nil && result0.wal != nil && result0.wal.reader != nil
 
